@@ -454,10 +454,15 @@ class World:
             raise oserr(errno.ENOENT, path)
         raise oserr(errno.ENOENT, path)
 
+    # the calling process's current directory: a relative path is looked up there
+    caller_cwd = "/v/caller-cwd"
+
     def node(self, path):
         """Resolve *path* without following a final symlink."""
         if isinstance(path, bytes):
             path = path.decode("utf8", "surrogateescape")
+        if not path.startswith("/"):
+            path = self.caller_cwd + "/" + path
         path = posixpath.normpath(path)
         if path in self.dyn:
             return ("file", self.dyn[path]())
@@ -515,6 +520,8 @@ class World:
         """Follow symlinks fully; returns (kind, payload, final_path)."""
         if depth > 8:
             raise oserr(errno.ELOOP, path)
+        if not path.startswith("/"):
+            path = self.caller_cwd + "/" + path
         path = posixpath.normpath(path)
         # resolve symlinked directory components (sysfs trees use them)
         comps = path.split("/")
